@@ -10,6 +10,8 @@ expiry does not elapse; what the loader guarantees before a build starts is the
 hypothesis `WF` (acyclic, unique names, no always-rebuild rules: file sets and bundles).
 -/
 import PubModel.C10.ReachW
+import PubModel.C10.Exact
+import PubModel.C10.Sim
 import PubModel.C10.Obligations
 
 namespace PubModel.C10
@@ -44,27 +46,6 @@ example : (match (exFail.build Cfg.good false ["r/a"]).outcome with
     | .buildErr (.exec "r/a" _) => true | _ => false) = true := by decide
 
 /-! ## a build with nothing changed executes nothing -/
-
-theorem keys_get {α β : Type} [DecidableEq α] (l : AL α β) (k : α) (h : k ∈ l.keys) : ∃ v, l.get k = some v := by
-  induction l with
-  | nil => simp [AL.keys] at h
-  | cons p t ih =>
-    obtain ⟨a, b⟩ := p
-    by_cases ha : a = k
-    · exact ⟨b, by simp [AL.get_cons, ha]⟩
-    · simp only [AL.keys, List.map_cons, List.mem_cons] at h
-      rcases h with h | h
-      · exact absurd h.symm ha
-      · obtain ⟨v, hv⟩ := ih h
-        exact ⟨v, by simp [AL.get_cons, ha, hv]⟩
-
-theorem src_reaches {S : Static} {t x : Name} {stt : Stat} (hs : S.node t = some (.src stt))
-    (h : Reaches S t x) : x = t := by
-  cases h with
-  | refl => rfl
-  | step nd hnd hm _ =>
-    rw [hs] at hnd; cases hnd
-    simp [nodeDeps] at hm
 
 /-- **Null build**: after a successful build, the same build again executes no rule. -/
 theorem null_build_executes_nothing {cfg : Cfg} (hr : cfg.removeFirst = true) (hp : cfg.putFirst = false)
@@ -230,6 +211,78 @@ end PubModel.C10
 
 namespace PubModel.C10
 
+/-- **Exactly the dependants are rebuilt.**  As in `rebuilds_only_dependents`: build `ts`, change
+    sources, rule definitions and outputs at will, build `ts2`.  For a rule that both builds
+    finished and whose own outputs were left alone: it is executed by the second build **iff**
+    its digest is no longer what it was — and the digest is what it was iff nothing in its cone
+    changed (`digest_unchanged`, `digest_changed_of_cone_changed`: a changed source, a changed
+    file list or a changed rule definition anywhere below it changes the digest).  The premise
+    `hfresh` is the one the statement needs: the new digest was never cached before (an exact
+    edit-back to an earlier state is a legitimate cache hit). -/
+theorem rebuilds_exactly_dependents {cfg : Cfg} (hr : cfg.removeFirst = true) (hp : cfg.putFirst = false)
+    {w : World} (hreach : Reach cfg w) {rank : Name → Nat} (wf : WF w.S rank) (ts : List Name)
+    (hok : (w.build cfg false ts).outcome = .ok)
+    (w2 : World) (hcache : w2.cache = (w.build cfg false ts).world.cache)
+    {rank2 : Name → Nat} (wf2 : WF w2.S rank2) (ts2 : List Name)
+    {x : Name} {r : Rule} (hfr : w2.S.findRule x = some r)
+    (hvis1 : x ∈ (w.build cfg false ts).visited) (hvis2 : x ∈ (w2.build cfg false ts2).visited)
+    (houts : ∀ o ∈ outs r, w2.out.get o = (w.build cfg false ts).world.out.get o)
+    (hfresh : ∀ d, IsD w2.S x d → ¬ IsD w.S x d → w2.cache.get d = none) :
+    x ∈ (w2.build cfg false ts2).log ↔ ¬ ∃ d, IsD w.S x d ∧ IsD w2.S x d := by
+  constructor
+  · intro hx
+    obtain ⟨r', hr', h⟩ := rebuilds_only_dependents hr hp hreach wf ts hok w2 hcache wf2 ts2 x hx
+    rw [hfr] at hr'; cases hr'
+    rcases h with h | h | ⟨o, ho, hne⟩
+    · exact absurd hvis1 h
+    · exact h
+    · exact absurd (houts o ho) hne
+  · intro hne
+    have hk2 : KInv w2.cache := by
+      rw [hcache]; exact build_kinv w cfg hr hp false ts (reach_kinv hr hp hreach)
+    have hl2 : loadOK w2.S ts2 = true := by
+      apply Classical.byContradiction
+      intro hl
+      unfold World.build at hvis2
+      simp [hl] at hvis2
+    obtain ⟨e2, st2, hb2, _, _, hv2, _⟩ := build_loaded w2 cfg false ts2 hl2
+    obtain ⟨_, hrel2, _⟩ := V_targets hr hp wf2 _ ts2 _ e2 st2 hb2 (VPre.init hk2)
+    have hvis2' := hvis2
+    rw [hv2] at hvis2'
+    obtain ⟨d2, hd2⟩ := keys_get _ _ hvis2'
+    have hD2 := hrel2.pre'.mdig x d2 hd2
+    refine (executed_iff_invalid hr hp hk2 wf2 ts2 hfr hD2 hvis2).mpr ?_
+    intro ⟨b, hb, _⟩
+    have hnone := hfresh d2 hD2 (fun h1 => hne ⟨d2, h1, hD2⟩)
+    have hb' : w2.cache.get d2 = some b := hb
+    rw [hnone] at hb'
+    cases hb'
+
+/-- non-vacuity (a diamond: `d/top` bundles `d/l` and `d/r`, both file sets over the leaves
+    `d/a.txt` / `d/b.txt`, and `d/l` also lists `d/base`'s output): one changed leaf re-executes
+    exactly the rules above it -/
+def exDiamond : World :=
+  { World.empty with S := ⟨[("d/a.txt", ⟨1, 5, 420, ""⟩), ("d/b.txt", ⟨2, 6, 420, ""⟩), ("d/c.txt", ⟨3, 7, 420, ""⟩)],
+      [⟨"d/base", .fileSet, ["d/c.txt"], [], [], [], [], false⟩,
+       ⟨"d/l", .fileSet, ["d/a.txt", "d/base.fileset"], [], [], [], [], false⟩,
+       ⟨"d/r", .fileSet, ["d/b.txt"], [], [], ["d/base"], [], false⟩,
+       ⟨"d/top", .bundle, [], [], [], [], ["d/l", "d/r"], false⟩]⟩ }
+
+example : (exDiamond.build Cfg.good false ["d/top"]).log = ["d/base", "d/l", "d/r", "d/top"] := by decide
+/-- leaf `d/a.txt` changed: `d/l` and the bundle are re-executed, `d/base` and `d/r` are not -/
+example : (((exDiamond.build Cfg.good false ["d/top"]).world.apply Cfg.good
+      (.srcSet "d/a.txt" ⟨1, 9, 420, ""⟩)).build Cfg.good false ["d/top"]).log = ["d/l", "d/top"] := by decide
+/-- the shared leaf `d/c.txt` changed: everything above it is re-executed -/
+example : (((exDiamond.build Cfg.good false ["d/top"]).world.apply Cfg.good
+      (.srcSet "d/c.txt" ⟨3, 9, 420, ""⟩)).build Cfg.good false ["d/top"]).log =
+    ["d/base", "d/l", "d/r", "d/top"] := by decide
+/-- an exact edit-back after that is a cache hit for every digest, but the outputs on disk are the
+    newer writes: the rules are executed again (stale entries are detected by `checkSameBuilt`) -/
+example : ((((exDiamond.build Cfg.good false ["d/top"]).world.apply Cfg.good
+      (.srcSet "d/c.txt" ⟨3, 9, 420, ""⟩)).build Cfg.good false ["d/top"]).world.apply Cfg.good
+      (.srcSet "d/c.txt" ⟨3, 7, 420, ""⟩) |>.build Cfg.good false ["d/top"]).log =
+    ["d/base", "d/l", "d/r"] := by decide
+
 /-! ## the cache invariant -/
 
 /-- **Cache invariant.**  In every reachable world, a cache entry whose recorded
@@ -262,19 +315,9 @@ theorem exec_matches_digest {S : Static} {rank : Name → Nat} (wf : WF S rank) 
 
 /-! ## incremental = clean -/
 
-/-
-Full statement (DESIGN.md):
-  theorem incremental_eq_clean : ReachW w → build w ts = .ok w' →
-      outOf w' ts ≈ outOf (build (clean w) ts) ts
-where ≈ is equality of the outputs of the rules reachable from `ts`, modulo the
-mtimes recorded for output-typed entries.  Proved below with one extra
-hypothesis: *the from-scratch build succeeds too*.  What is missing for the
-full statement is "incremental ok → clean ok" (a cache hit implies `F d` is
-defined, hence the executor cannot fail on well-formed inputs; needs the
-converse of `fileEnts_good`/`incEnts_good` and a lock-step simulation of the two
-traversals).  The harness checks exactly this gap on every build
-(oracle `incr-ok-clean-fails`).
--/
+/-- equality of the outputs when both builds succeed; `incremental_eq_clean` below discharges the
+    second hypothesis (`clean_succeeds_of_incremental`) and is the full statement of DESIGN.md;
+    this corollary-shaped lemma is kept under its old name -/
 theorem incremental_eq_clean_partial {cfg : Cfg} (hrf : cfg.removeFirst = true) (hpf : cfg.putFirst = false)
     (hco : cfg.clearOuts = true) {w : World} (hreach : ReachW cfg w) {rank : Name → Nat} (wf : WF w.S rank)
     (always : Bool) (ts : List Name)
@@ -339,6 +382,75 @@ theorem incremental_eq_clean_partial {cfg : Cfg} (hrf : cfg.removeFirst = true) 
   · rw [hmode, hmodec]
   · rw [hsym, hsymc]
 
+/-- **If the incremental build succeeds, so does the build from an empty output directory**
+    (the two traversals run in lock step; a rule found up to date or executed successfully has a
+    digest that prescribes a content, so the clean executor finds every input it needs). -/
+theorem clean_succeeds_of_incremental {cfg : Cfg} (hrf : cfg.removeFirst = true) (hpf : cfg.putFirst = false)
+    (hco : cfg.clearOuts = true) {w : World} (hreach : ReachW cfg w) {rank : Name → Nat} (wf : WF w.S rank)
+    (always : Bool) (ts : List Name) (hok : (w.build cfg always ts).outcome = .ok) :
+    (w.clean.build cfg false ts).outcome = .ok := by
+  have hl := build_ok_loaded hok
+  obtain ⟨e, st, hb, _, _, _, hout⟩ := build_loaded w cfg always ts hl
+  have he : e = none := by
+    cases e with
+    | none => rfl
+    | some e => rw [hout] at hok; cases hok
+  subst he
+  have hlc : loadOK w.clean.S ts = true := hl
+  obtain ⟨ec, stc, hbc, _, _, _, houtc⟩ := build_loaded w.clean cfg false ts hlc
+  have hkc : KInv w.clean.cache := by intro d b hb'; simp [World.clean, AL.get] at hb'
+  have hndc : NoDir w.clean.st0.out := by intro o s hg; simp [World.clean, World.st0, AL.get] at hg
+  obtain ⟨stB', hB⟩ := Sim_targets (aA := always) hrf hpf hco wf w.saved _ ts w.st0 w.clean.st0 st hb rfl
+    (VPre.init (reach_kinv hrf hpf hreach.reach)) (GPre.init (reachW_cinv hrf hpf hco hreach))
+    (VPre.init hkc) (GPre.init (by simpa [World.clean] using CInv.empty w.tick)) hndc
+  have hB' : buildNodes w.clean.S cfg false (fuelFor w.clean.S) ts w.clean.st0 = (none, stB') := hB
+  rw [hbc] at hB'
+  simp only [Prod.mk.injEq] at hB'
+  rw [houtc, hB'.1]
+
+/-- **Incremental = clean.**  In any reachable world, if a build (ordinary or AlwaysRebuild)
+    succeeds, then a build of the same sources from an empty output directory succeeds too, and
+    every output of every rule the build finished is on disk in both with the same canonical
+    content (equal modulo the mtimes recorded for output-typed entries), size, mode and type. -/
+theorem incremental_eq_clean {cfg : Cfg} (hrf : cfg.removeFirst = true) (hpf : cfg.putFirst = false)
+    (hco : cfg.clearOuts = true) {w : World} (hreach : ReachW cfg w) {rank : Name → Nat} (wf : WF w.S rank)
+    (always : Bool) (ts : List Name) (hok : (w.build cfg always ts).outcome = .ok) :
+    (w.clean.build cfg false ts).outcome = .ok ∧
+    ∀ r, w.S.findRule r.name = some r → r.name ∈ (w.build cfg always ts).visited → ∀ o ∈ outs r,
+      ∃ f fc l lc, (w.build cfg always ts).world.out.get o = some f ∧
+        (w.clean.build cfg false ts).world.out.get o = some fc ∧
+        f.body = .entries l ∧ fc.body = .entries lc ∧ canon l = canon lc ∧
+        f.stat.size = fc.stat.size ∧ f.stat.mode = fc.stat.mode ∧ f.stat.symlink = fc.stat.symlink :=
+  have hclean := clean_succeeds_of_incremental hrf hpf hco hreach wf always ts hok
+  ⟨hclean, incremental_eq_clean_partial hrf hpf hco hreach wf always ts hok hclean⟩
+
+/-- **The failing outcome**: if the build from an empty output directory fails at some rule, the
+    incremental build fails too (at some rule, not necessarily the same one: an obstructed output
+    of an earlier rule fails first), and whatever rule it fails at has no cache entry afterwards. -/
+theorem clean_fails_incremental_fails {cfg : Cfg} (hrf : cfg.removeFirst = true) (hpf : cfg.putFirst = false)
+    (hco : cfg.clearOuts = true) {w : World} (hreach : ReachW cfg w) {rank : Name → Nat} (wf : WF w.S rank)
+    (always : Bool) (ts : List Name) (e : Err) (hfail : (w.clean.build cfg false ts).outcome = .buildErr e) :
+    ∃ e', (w.build cfg always ts).outcome = .buildErr e' ∧
+      ∀ rn d, e' = .exec rn d → (w.build cfg always ts).world.cache.get d = none := by
+  have hlc : loadOK w.clean.S ts = true := by
+    apply Classical.byContradiction
+    intro hl
+    rw [(build_not_loaded w.clean cfg false ts hl).2.2] at hfail
+    cases hfail
+  have hl : loadOK w.S ts = true := hlc
+  obtain ⟨e0, st, _, _, _, _, hout⟩ := build_loaded w cfg always ts hl
+  cases e0 with
+  | none =>
+    have hok : (w.build cfg always ts).outcome = .ok := hout
+    have := clean_succeeds_of_incremental hrf hpf hco hreach wf always ts hok
+    rw [this] at hfail
+    cases hfail
+  | some e' =>
+    refine ⟨e', hout, ?_⟩
+    intro rn d he
+    subst he
+    exact failed_never_cached w cfg hrf hpf always ts rn d hout
+
 /-- non-vacuity: chmod a source, rebuild: the outputs equal those of the clean build (same canonical
     text), and the cache holds entries that are unchanged on disk -/
 def exAfter : World :=
@@ -355,6 +467,30 @@ example : ((exAfter.build Cfg.good false ["r/all"]).world.out.get "r/b.fileset")
 
 example : (exAfter.build Cfg.good false ["r/all"]).world.cache.length = 6 := by decide
 
+/-- non-vacuity of the failing outcome (a failing middle rule): `m/mid` includes a bundle, which is
+    not a file set, so its execution fails — in the clean build and in the incremental one; the
+    rule below it is built and cached, the failed rule is not, the rule above it is never reached -/
+def exMid : World :=
+  { World.empty with S := ⟨[("m/a.txt", ⟨1, 5, 420, ""⟩)],
+      [⟨"m/low", .fileSet, ["m/a.txt"], [], [], [], [], false⟩,
+       ⟨"m/bun", .bundle, [], [], [], [], ["m/low"], false⟩,
+       ⟨"m/mid", .fileSet, [], [], [], ["m/low", "m/bun"], [], false⟩,
+       ⟨"m/top", .fileSet, ["m/mid.fileset"], [], [], [], [], false⟩]⟩ }
+
+example : (match (exMid.clean.build Cfg.good false ["m/top"]).outcome with
+    | .buildErr (.exec "m/mid" _) => true | _ => false) = true := by decide
+example : (match (exMid.build Cfg.good false ["m/top"]).outcome with
+    | .buildErr (.exec "m/mid" _) => true | _ => false) = true ∧
+    (exMid.build Cfg.good false ["m/top"]).log = ["m/low", "m/bun", "m/mid"] ∧
+    (exMid.build Cfg.good false ["m/top"]).world.cache.length = 2 := by decide
+/-- after healing the rule the next build executes it (it was never cached) and the rule above it -/
+example : (((exMid.build Cfg.good false ["m/top"]).world.apply Cfg.good (.setRules
+      [⟨"m/low", .fileSet, ["m/a.txt"], [], [], [], [], false⟩,
+       ⟨"m/bun", .bundle, [], [], [], [], ["m/low"], false⟩,
+       ⟨"m/mid", .fileSet, [], [], [], ["m/low"], [], false⟩,
+       ⟨"m/top", .fileSet, ["m/mid.fileset"], [], [], [], [], false⟩])).build Cfg.good false ["m/top"]).log =
+    ["m/mid", "m/top"] := by decide
+
 /-! ## the theorems apply to the tree as it is now
 
 `genCfg` is read from the AST of `buildNode` on every run (order of `remove` / `build` / `put`,
@@ -369,5 +505,10 @@ theorem failed_never_cached_current_tree (w : World) (always : Bool) (ts : List 
     (h : (w.build genCfg always ts).outcome = .buildErr (.exec rn d)) :
     (w.build genCfg always ts).world.cache.get d = none :=
   failed_never_cached w genCfg (by decide) (by decide) always ts rn d h
+
+theorem incremental_eq_clean_current_tree {w : World} (hreach : ReachW genCfg w) {rank : Name → Nat}
+    (wf : WF w.S rank) (always : Bool) (ts : List Name) (hok : (w.build genCfg always ts).outcome = .ok) :
+    (w.clean.build genCfg false ts).outcome = .ok :=
+  (incremental_eq_clean (by decide) (by decide) (by decide) hreach wf always ts hok).1
 
 end PubModel.C10
